@@ -332,7 +332,7 @@ def Formatting.numberType (f : Formatting) : FType :=
 /-- `Formatting.__post_init__`: every failure is a `TypeError`; the result has its decimal places filled in. -/
 def Formatting.postInit (f : Formatting) : PyM (Formatting × Int) :=
   -- "use_accounting_style overriding negative_style" (RuntimeWarning)
-  let f := if f.useAccounting ∧ f.negativeStyle ≠ 0 then { f with negativeStyle := 0 } else f
+  let ns : Int := if f.useAccounting ∧ f.negativeStyle ≠ 0 then 0 else f.negativeStyle
   let nt := f.numberType
   if f.type = .datetime ∧ !DateFmt.validFormat f.dateTimeFormat then .error .TypeError
   else if nt = .currency ∧ !(Gen.currencies.any fun c => c.toList == f.currencyCode) then .error .TypeError
@@ -342,7 +342,7 @@ def Formatting.postInit (f : Formatting) : PyM (Formatting × Int) :=
       | none => if nt = .currency then 2 else (Gen.DECIMAL_PLACES_AUTO : Nat)
     if nt = .base ∧ !f.baseUseMinus ∧ ¬(f.base = 2 ∨ f.base = 8 ∨ f.base = 16) then .error .TypeError
     else if nt = .base ∧ (f.base < 2 ∨ f.base > (Gen.MAX_BASE : Nat)) then .error .TypeError
-    else .ok ({ f with decimalPlaces := some places }, places)
+    else .ok ({ f with negativeStyle := ns, decimalPlaces := some places }, places)
 
 /-- `Formatting(type=format_type, **kwargs)`. -/
 def Formatting.make (t : FType) (a : Args) : PyM (Formatting × Int) :=
@@ -428,8 +428,9 @@ def popupCheck (c : Cell) (f : Formatting) : PyM Unit :=
   else if c.value ≠ .str [] ∧ !(f.popupValues.any fun i => c.value.eqItem i) then .error .IndexError
   else .ok ()
 
-/-- `Table._set_cell_data_format(row, col, name, **kwargs)` on the cell at `(row, col)`. -/
-def setCellDataFormat (c : Cell) (name : Text) (a : Args) : PyM Cell := do
+/-- the part of `Table._set_cell_data_format(row, col, name, **kwargs)` before `cell._set_formatting(...)`: the archive
+    that is requested, the format type, the control archive, `is_currency`. -/
+def formatChoice (c : Cell) (name : Text) (a : Args) : PyM (Fmt × FType × Option Ctl × Bool) := do
   let (t, allowed) ← resolveType name
   if !allowed.contains c.kind.className then throw .TypeError
   let (f, places) ← Formatting.make t a
@@ -440,17 +441,22 @@ def setCellDataFormat (c : Cell) (name : Text) (a : Args) : PyM Cell := do
     | some .invalid => throw .TypeError
     | some (.control ct) =>
       let fmt ← formatArchive ct.toFType.code f places
-      pure (setFormatting c fmt t ctl (ct = .currency))
+      pure (fmt, t, ctl, decide (ct = .currency))
     | none =>
       let fmt ← formatArchive FType.number.code f places
-      pure (setFormatting c fmt t ctl false)
+      pure (fmt, t, ctl, false)
   else if t = .popup then
     popupCheck c f
     let fmt ← formatArchive (if c.kind = .text then FType.text.code else 1) f places
-    pure (setFormatting c fmt t ctl false)
+    pure (fmt, t, ctl, false)
   else
     let fmt ← formatArchive t.code f places
-    pure (setFormatting c fmt t ctl (t = .currency))
+    pure (fmt, t, ctl, decide (t = .currency))
+
+/-- `Table._set_cell_data_format(row, col, name, **kwargs)` on the cell at `(row, col)`. -/
+def setCellDataFormat (c : Cell) (name : Text) (a : Args) : PyM Cell := do
+  let r ← formatChoice c name a
+  pure (setFormatting c r.1 r.2.1 r.2.2.1 r.2.2.2)
 
 /-! ### `Cell.formatted_value` → `_duration_format` / `_date_format` / `_custom_format` -/
 
